@@ -249,6 +249,12 @@ func (c *Conn) writeFrame(ctx context.Context, fin bool, flate bool, opcode opco
 	}
 	defer c.writeFrameMu.unlock()
 
+	if c.closeSent && opcode != opPing && opcode != opPong {
+		// No data frame and no second close frame may follow a close frame.
+		// See https://www.rfc-editor.org/rfc/rfc6455#section-5.5.1
+		return 0, net.ErrClosed
+	}
+
 	select {
 	case <-c.closed:
 		return 0, net.ErrClosed
@@ -268,6 +274,9 @@ func (c *Conn) writeFrame(ctx context.Context, fin bool, flate bool, opcode opco
 		}
 	}()
 
+	if opcode == opClose {
+		c.closeSent = true
+	}
 	c.writeHeader.fin = fin
 	c.writeHeader.opcode = opcode
 	c.writeHeader.payloadLength = int64(len(p))
